@@ -95,6 +95,9 @@ def hdr_summary(env):
     return out
 
 
+_QUEUES = {}
+
+
 def build_queue(chain):
     from slimta.queue import Queue
     from slimta.queue.dict import DictStorage
@@ -144,7 +147,11 @@ def run_case(case, model):
     env.receiver = 'rcv.example'
     env.client = {'ip': '1.2.3.4', 'name': 'client'}
     hdr0 = hdr_summary(env)
-    q = build_queue(chain)
+    # the policy objects of a chain live as long as the worker does (as in a running MTA): a policy must not remember anything from
+    # the messages it has seen (every (chain, recipients) pair comes by several times, with other header sets)
+    q = _QUEUES.get(tuple(chain))
+    if q is None:
+        q = _QUEUES[tuple(chain)] = build_queue(chain)
     try:
         outs = q._run_policies(env)
     except Exception as e:
@@ -230,6 +237,23 @@ def run_case(case, model):
                     break
             outs[0].recipients.pop()
             del outs[0].headers['X-Probe']
+    # ---- the next message: same recipients through the same policy objects, after the outputs of this one were rewritten in place
+    # (what a later policy or the relay may do): it must come out exactly as this one did
+    if chain and not hits and mismatch is None:
+        for o in outs:
+            o.recipients[:] = ['rewritten-%d@elsewhere.example' % i for i in range(len(o.recipients))]
+        env2 = Envelope('sender@example.com', list(rcpts))
+        env2.parse(HDRSETS[case['hdrs']] + b'\r\n' + body)
+        env2.timestamp, env2.receiver, env2.client = env.timestamp, env.receiver, dict(env.client)
+        try:
+            outs2 = q._run_policies(env2)
+            canon2 = '|'.join('%s/%s' % (','.join(str(ids.get(r, -1)) for r in o.recipients) or '-', ','.join(hdr_summary(o)) or '-') for o in outs2)
+        except Exception as e:
+            canon2 = 'raised %r' % e
+        if canon2 != canon:
+            hits.append(hit('c16.policy-remembers-previous-message', 'the same message through the same policy objects came out differently the second '
+                            'time (after the first one\'s outputs had been rewritten in place)', observed=canon2, expected=canon))
+        outs = outs2 if canon2 == canon else outs
     nA, nM, nR = chain.count('A'), chain.count('M'), chain.count('R')
     for o in outs:
         hs = hdr_summary(o)
